@@ -36,6 +36,20 @@ def run_case(ctx, rnd, where):
             cfg[rnd.choice(["mid", "top"])]["options"] = {"check_valid": "shallow"}
         hist.reset(cfg)
         world = c02.World(rnd, family, d)
+        # a job that can never be submitted (its executor option names no configured executor): a real run rejects it
+        # without executing anything, so a dry run must not count it as work that "would run"
+        bad = rnd.choice([None, None, None, "uncaught", "caught"])
+
+        def expr():
+            e = world.expr(False)
+            if bad is None:
+                return e
+            from redun.functools import const  # noqa: F401
+            from redun.scheduler import SchedulerError, catch
+            b = hist.T["leafA"].options(executor="no_such_executor")(977)
+            if bad == "caught":
+                b = catch(b, SchedulerError, hist.T["recover"])
+            return [e, b]
         path = os.path.join(d, "r.db")
         backend = c22.open_backend(path)
         past = {}
@@ -43,8 +57,8 @@ def run_case(ctx, rnd, where):
         nprior = rnd.randint(0, 4)
         try:
             for i in range(nprior):
-                hist.run(lambda: world.expr(False), backend)
-                st = c02.gen_step(rnd, world, past)
+                hist.run(expr, backend)
+                st = c02.gen_step(rnd, world, past) if not (bad and i == nprior - 1 and rnd.random() < 0.7) else ["nothing"]
                 c02.apply_step(st, world, past)
                 steps.append(st)
         finally:
@@ -55,14 +69,16 @@ def run_case(ctx, rnd, where):
         backend = c22.open_backend(path)
         try:
             trace.reset()
-            out, c, s = engine.run_controlled(world.expr(False), ctl.RandomChooser(rnd.randrange(1 << 30)), backend=backend,
+            out, c, s = engine.run_controlled(expr(), ctl.RandomChooser(rnd.randrange(1 << 30)), backend=backend,
                                               dryrun=True)
             dry_calls = trace.snapshot()
             dry_submits = len(c.submits)
             cached_jobs = sum(1 for j in c.job_order if c.jobs[j].get("status_was_cached"))
         finally:
             hist.close_backend(backend)
-        wit = {"family": family, "steps": steps, "prior_executions": nprior, "where": where}
+        wit = {"family": family, "steps": steps, "prior_executions": nprior, "unsubmittable_job": bad, "where": where}
+        if bad:
+            ctx.count("cases_with_unsubmittable_job")
         ctx.ev()
         ctx.count("dry_runs")
         if dry_submits or dry_calls:
@@ -70,7 +86,7 @@ def run_case(ctx, rnd, where):
         # real run on the copy
         backend = c22.open_backend(cp)
         try:
-            key, rout, calls, c2 = hist.run(lambda: world.expr(False), backend)
+            key, rout, calls, c2 = hist.run(expr, backend)
         finally:
             hist.close_backend(backend)
         if out[0] == "v":
